@@ -307,6 +307,57 @@ def check(ctx: Ctx) -> list[RuleResult]:
         else:
             r6.fail(f"{pm.short}:binding-fan-out-not-offer-only", g.loc(n), "process_msg hands a 1FC9 to every device that is binding without requiring it to be an *offer*: an accept/confirm of an unrelated handshake is delivered to (and taken by) a device waiting for its own")
     out.append(r6)
+
+    # ---- R7 ---------------------------------------------------------------------------
+    # a wait that ends - however it ends - moves the context on: every normal way out of the state's wait passes the transition to
+    # the next context state. A short cut that hands back the packet without the transition leaves the context in the waiting state:
+    # the next step finds the wrong state (BindingFsmError), the device stays binding and no new attempt can start
+    r7 = RuleResult("R7", "a completed wait makes its transition", "every normal return of the state's wait passes _set_context_state(); both entry points reset the same per-attempt state", min_instances=2)
+    waits7 = [g for g in repo.funcs.values() if g.module.name == MOD and g.is_async and any(isinstance(n, ast.Call) and norm(n.func).endswith("wait_for") for n in own_nodes(g.node)) and any(isinstance(n, ast.Call) and isinstance(n.func, ast.Attribute) and n.func.attr == "_set_context_state" for n in own_nodes(g.node))]
+    if not waits7:
+        raise AnalysisError("binding_fsm: the state's wait (wait_for + _set_context_state) was not found")
+    for g in waits7:
+        cfg7 = ctx.plain_cfg(g)
+        trans = {x.id for x in cfg7.nodes if x.ast is not None and x.kind == "stmt" and any(isinstance(c, ast.Call) and isinstance(c.func, ast.Attribute) and c.func.attr in ("_set_context_state", "_handle_wait_timer_expired") and False or (isinstance(c, ast.Call) and isinstance(c.func, ast.Attribute) and c.func.attr == "_set_context_state") for c in ast.walk(x.ast))}
+        dom7 = cfg7.dominators()
+        for rn in [x for x in cfg7.nodes if x.kind == "stmt" and isinstance(x.ast, ast.Return)]:
+            r7.instances += 1
+            r7.nontrivial += 1
+            if trans & dom7[rn.id]:
+                r7.ok({"return": f"{g.short}: {norm(rn.ast)[:50]}", "after": "_set_context_state()"})
+            else:
+                r7.fail(f"{g.short}:return-without-transition", g.loc(rn.ast), f"`{norm(rn.ast)[:60]}` leaves {g.short} without the transition to the next context state: the awaited packet is handed back while the context still sits in the waiting state, so the next step of the handshake raises BindingFsmError and the device stays binding")
+    # sibling agreement: whatever per-attempt state one entry point resets, the other resets too (a memo of packets seen, counters...)
+    entry_r = repo.func(f"{MOD}.BindContextRespondent.wait_for_binding_request")
+    entry_s = repo.func(f"{MOD}.BindContextSupplicant.initiate_binding_process")
+
+    def resets(g) -> set[str]:
+        res = set()
+        for n in own_nodes(g.node):
+            if isinstance(n, ast.Call) and isinstance(n.func, ast.Attribute) and n.func.attr in ("clear",) and isinstance(n.func.value, ast.Attribute) and norm(n.func.value.value) == "self":
+                res.add(n.func.value.attr)
+            if isinstance(n, (ast.Assign, ast.AnnAssign)):
+                for t in (n.targets if isinstance(n, ast.Assign) else [n.target]):
+                    if isinstance(t, ast.Attribute) and norm(t.value) == "self":
+                        res.add(t.attr)
+        return res
+
+    r7.instances += 1
+    r7.nontrivial += 1
+    ra, rb = resets(entry_r), resets(entry_s)
+    # state accumulated while receiving (appended to / added to in rcvd_msg/sent_cmd) has to be reset by both, or by neither
+    accum = set()
+    for g in repo.funcs.values():
+        if g.module.name == MOD and g.name in ("rcvd_msg", "sent_cmd", "set_state"):
+            for n in own_nodes(g.node):
+                if isinstance(n, ast.Call) and isinstance(n.func, ast.Attribute) and n.func.attr in ("append", "add", "extend", "update", "setdefault") and isinstance(n.func.value, ast.Attribute) and norm(n.func.value.value) == "self":
+                    accum.add(n.func.value.attr)
+    one_sided = sorted((ra ^ rb) | {a for a in accum if a not in ra or a not in rb})
+    if one_sided:
+        r7.fail(f"{MOD}:per-attempt-state-reset-one-sided:{','.join(one_sided)}", entry_s.loc(), f"per-attempt state {one_sided} is accumulated while receiving but is not reset by both entry points (respondent resets {sorted(ra)}, supplicant resets {sorted(rb)}): what one attempt left behind changes how the next attempt on the other path treats the same packets (e.g. a byte-identical Accept is discarded as a repeat)")
+    else:
+        r7.ok({"per_attempt_state": sorted(accum), "reset_by_respondent": sorted(ra), "reset_by_supplicant": sorted(rb)})
+    out.append(r7)
     return out
 
 
